@@ -502,9 +502,8 @@ class CNF(SimpleSequence[Clause]):
         """Used when ``k`` is out of range for ``len(in_list)`` variables, so
         that no assignment can satisfy the requested relation.
         """
-        if not in_list:
-            raise ValueError("cannot take pop count of empty list")
-        self.prepend(CNF([Clause(in_list[0]), Clause(~in_list[0])]))
+        var = in_list[0] if in_list else self.get_fresh()
+        self.prepend(CNF([Clause(var), Clause(~var)]))
 
     def assert_k_of_n(self, k: int, in_list: Sequence[Var]):
         # TODO DOC
@@ -512,6 +511,9 @@ class CNF(SimpleSequence[Clause]):
         if k > len(in_list):
             # The bits of `k` do not fit the pop count's width
             self._assert_unsatisfiable(in_list)
+            return
+        if not in_list:
+            # Exactly 0 of no variables
             return
         in_binary =  int_to_binary(k)
         sum_bits = self.pop_count(in_list, len(in_binary)+1)
@@ -539,7 +541,7 @@ class CNF(SimpleSequence[Clause]):
         # where the answer does not depend on the variables
         if assert_less_than and k > len(in_list):
             return
-        if not assert_less_than and k >= len(in_list):
+        if (not assert_less_than and k >= len(in_list)) or not in_list:
             self._assert_unsatisfiable(in_list)
             return
         in_binary = int_to_binary(k)
